@@ -31,6 +31,7 @@ type Config struct {
 	Deadline     time.Time
 	Tier         int
 	CexSamples   int
+	NoPortfolio  bool
 }
 
 // ----- path termination sentinels (Go panics unwinding the interpreter)
@@ -84,6 +85,8 @@ type Stats struct {
 	Reach        map[string]int
 	Funcs        map[string]bool
 	SolverErrors []string
+	AltQueries   int
+	AltDecided   int
 }
 
 type Shared struct {
@@ -107,6 +110,8 @@ type Interp struct {
 	Prog   *ssa.Program
 	B      *sym.Builder
 	S      *sym.Solver
+	MS     *sym.Solver // solver holding the last model
+	alts   map[string]*sym.Solver
 	Sh     *Shared
 	zeroB  *sym.Term
 	nextObj int
@@ -144,6 +149,7 @@ type Interp struct {
 	localFuncs map[string]bool
 	carried  map[string]*sym.Term
 	extra    map[string]interface{}
+	eqConst  map[int]*sym.Term // terms the path condition pins to a constant
 }
 
 type region struct {
@@ -155,6 +161,13 @@ type rounding struct {
 	e, r *sym.Term
 	bits int
 	site string
+}
+
+// Progress returns a one-line summary of the exploration state.
+func (sh *Shared) Progress() string {
+	sh.mu.Lock()
+	defer sh.mu.Unlock()
+	return fmt.Sprintf("paths=%d ok=%d queued=%d active=%d findings=%d", sh.Stats.Paths, sh.Stats.PathsOK, len(sh.work), sh.active, len(sh.Findings))
 }
 
 // Seed puts the empty decision prefix on the worklist.
@@ -216,6 +229,7 @@ func (in *Interp) resetPath(prefix []decision) {
 	in.localFuncs = map[string]bool{}
 	in.carried = map[string]*sym.Term{}
 	in.extra = map[string]interface{}{}
+	in.eqConst = map[int]*sym.Term{}
 }
 
 // ----- path condition & branching
@@ -228,6 +242,13 @@ func (in *Interp) assume(c *sym.Term) {
 		return
 	}
 	in.pc = append(in.pc, c)
+	if c.Op == sym.OEq && c.Args[0].Sort == sym.SInt {
+		if c.Args[1].IsConst() && !c.Args[0].IsConst() && c.Args[0].Op != sym.OVar {
+			in.eqConst[c.Args[0].ID] = c.Args[1]
+		} else if c.Args[0].IsConst() && !c.Args[1].IsConst() && c.Args[1].Op != sym.OVar {
+			in.eqConst[c.Args[1].ID] = c.Args[0]
+		}
+	}
 	if len(in.pc) > in.local.MaxPC {
 		in.local.MaxPC = len(in.pc)
 	}
@@ -282,7 +303,59 @@ func (in *Interp) input(name string, s sym.Sort, lo, hi *big.Int) *sym.Term {
 }
 
 func (in *Interp) check(extra *sym.Term) sym.Result {
-	r := in.S.Check(in.pc, extra)
+	return in.checkPC(in.pc, extra)
+}
+
+// checkPC asks the primary solver and, on unknown/timeout, the other back ends
+// (portfolio: z3 4.8, z3 5.1, cvc5). The solver that answered holds the model.
+func (in *Interp) checkPC(pc []*sym.Term, extra *sym.Term) sym.Result {
+	in.MS = in.S
+	t0 := time.Now()
+	r := in.S.Check(pc, extra)
+	if in.Cfg.Verbose > 0 && time.Since(t0) > 5*time.Second {
+		var vals []string
+		for _, d := range in.trace {
+			if d.Kind == 1 {
+				vals = append(vals, d.Val.String())
+			}
+		}
+		ex := ""
+		if extra != nil {
+			ex = in.B.Show(extra)
+			if len(ex) > 300 {
+				ex = ex[:300]
+			}
+		}
+		fmt.Fprintf(os.Stderr, "SLOW query %.1fs -> %v path=%d fixes=%v pc=%d\n  at %s\n  extra=%s\n", time.Since(t0).Seconds(), r, in.pathID, vals, len(pc), strings.Join(in.stackStrings(), " <- "), ex)
+	}
+	if r != sym.Unknown || in.Cfg.NoPortfolio {
+		return r
+	}
+	for _, kind := range []string{"z3-new", "cvc5", "z3"} {
+		if kind == in.S.Kind {
+			continue
+		}
+		alt := in.alts[kind]
+		if alt == nil {
+			a, err := sym.NewSolver(in.B, kind, in.Cfg.SolverTO)
+			if err != nil {
+				continue
+			}
+			if in.alts == nil {
+				in.alts = map[string]*sym.Solver{}
+			}
+			in.alts[kind] = a
+			alt = a
+		}
+		r2 := alt.Check(pc, extra)
+		in.local.AltQueries++
+		if r2 != sym.Unknown {
+			in.S.Unknowns-- // decided by the portfolio
+			in.local.AltDecided++
+			in.MS = alt
+			return r2
+		}
+	}
 	return r
 }
 
@@ -329,6 +402,69 @@ func (in *Interp) branch(cond *sym.Term) bool {
 	in.trace = append(in.trace, decision{Kind: 0, N: 1})
 	in.assume(cond)
 	return true
+}
+
+// implied reports whether the path condition entails cond (no fork; the answer is
+// recorded in the decision trace so that replays of this prefix take the same route).
+func (in *Interp) implied(cond *sym.Term) bool {
+	if cond.IsConst() {
+		return cond.B
+	}
+	if in.pos < len(in.prefix) {
+		d := in.prefix[in.pos]
+		in.pos++
+		in.trace = append(in.trace, d)
+		if d.Kind != 4 {
+			panic(fmt.Sprintf("decision kind mismatch at %d: want implied got %d", in.pos-1, d.Kind))
+		}
+		return d.N == 1
+	}
+	in.pos++
+	n := 0
+	if in.check(in.B.Not(cond)) == sym.Unsat {
+		n = 1
+	}
+	in.trace = append(in.trace, decision{Kind: 4, N: n})
+	return n == 1
+}
+
+// wrap reduces x to the range of a Go integer type. When the static interval of x does
+// not already fit, the solver is asked whether the path condition keeps x in range; if so
+// the (expensive) modulo is avoided and x is renamed to a variable with the tight interval.
+func (in *Interp) wrap(x *sym.Term, signed bool, bits int) *sym.Term {
+	lo, hi := sym.TypeRange(signed, bits)
+	if x.IsConst() || sym.Within(x, lo, hi) {
+		return in.B.Wrap(x, signed, bits)
+	}
+	if in.opts["nowraptighten"] != 0 {
+		return in.B.Wrap(x, signed, bits)
+	}
+	// entirely outside or far too wide: a genuine wrap, do not bother the solver
+	if x.Lo != nil && x.Hi != nil {
+		span := new(big.Int).Sub(x.Hi, x.Lo)
+		tspan := new(big.Int).Sub(hi, lo)
+		if span.Cmp(new(big.Int).Lsh(tspan, 2)) > 0 {
+			return in.B.Wrap(x, signed, bits)
+		}
+		if x.Hi.Cmp(lo) < 0 || x.Lo.Cmp(hi) > 0 {
+			return in.B.Wrap(x, signed, bits)
+		}
+	}
+	B := in.B
+	inr := B.And(B.Le(B.Int(lo), x), B.Le(x, B.Int(hi)))
+	if !in.implied(inr) {
+		return in.B.Wrap(x, signed, bits)
+	}
+	nlo, nhi := lo, hi
+	if x.Lo != nil && x.Lo.Cmp(nlo) > 0 {
+		nlo = x.Lo
+	}
+	if x.Hi != nil && x.Hi.Cmp(nhi) < 0 {
+		nhi = x.Hi
+	}
+	v := in.freshVar("rng", sym.SInt, nlo, nhi)
+	in.assume(B.Eq(v, x))
+	return v
 }
 
 // obligation: like branch(ok) but accounted as a proof obligation.
@@ -394,10 +530,10 @@ func (in *Interp) concretize(t *sym.Term, why string) *big.Int {
 	// ask for the value of t: introduce a probe variable bound to t
 	probe := in.B.Var("probe!c", sym.SInt, nil, nil)
 	eq := in.B.Eq(probe, t)
-	if in.S.Check(in.pc, eq) != sym.Sat {
+	if in.checkPC(in.pc, eq) != sym.Sat {
 		panic(unsupported{"solver failed to produce value for " + why})
 	}
-	m := in.S.GetValues([]*sym.Term{probe})
+	m := in.MS.GetValues([]*sym.Term{probe})
 	vs, ok := m["probe!c"]
 	if !ok {
 		panic(unsupported{"no model value for " + why})
@@ -456,7 +592,7 @@ func (in *Interp) model() (map[string]string, bool) {
 	for _, iv := range in.inputs {
 		vars = append(vars, iv.T)
 	}
-	m := in.S.GetValues(vars)
+	m := in.MS.GetValues(vars)
 	out := map[string]string{}
 	for _, iv := range in.inputs {
 		if v, ok := m[iv.T.Name]; ok {
@@ -501,10 +637,10 @@ func (in *Interp) evalTerms(ts map[string]*sym.Term, model map[string]string) ma
 	if len(probes) == 0 {
 		return out
 	}
-	if in.S.Check(in.pc, conj) != sym.Sat {
+	if in.checkPC(in.pc, conj) != sym.Sat {
 		return out
 	}
-	m := in.S.GetValues(probes)
+	m := in.MS.GetValues(probes)
 	pi := 0
 	for _, k := range names {
 		t := ts[k]
@@ -732,6 +868,8 @@ func (in *Interp) flushStats() {
 		st.MaxPC = in.local.MaxPC
 	}
 	st.PathsOK += in.local.PathsOK
+	st.AltQueries += in.local.AltQueries
+	st.AltDecided += in.local.AltDecided
 	for k := range in.local.NontrivialOb {
 		st.NontrivialOb[k] = true
 	}
@@ -815,6 +953,13 @@ func (in *Interp) Close() {
 	in.Sh.Stats.SolverErrors = append(in.Sh.Stats.SolverErrors, in.S.Errors...)
 	in.Sh.mu.Unlock()
 	in.S.Close()
+	for _, a := range in.alts {
+		in.Sh.mu.Lock()
+		in.Sh.Stats.Queries += a.Queries
+		in.Sh.Stats.SolverS += a.Time.Seconds()
+		in.Sh.mu.Unlock()
+		a.Close()
+	}
 }
 
 // ----- float helpers
